@@ -16,6 +16,7 @@
 From Coq Require Import List NArith ZArith Bool.
 Import ListNotations.
 Require Import Parser SBase SPrim SDir SScalar SFetch Pipe SInv C02base C02run DocReset RejectProofs RejectScan RejectFlow RejectReach.
+Require FlowText Drivers ScanBlockProofs RejectBlockText.
 Open Scope N_scope.
 
 (* ================================================================================================ *)
@@ -1156,3 +1157,68 @@ Proof.
   - repeat constructor; cbv; discriminate.
   - repeat constructor; cbv; discriminate.
 Qed.
+
+(* ================================================================================================ *)
+(* T: damaged BLOCK documents at text level (Proofs/RejectBlockText.v): the well-formed part is run through the scanner   *)
+(* with the C03 block-text machinery (Proofs/ScanBlockProofs.v), the failing step is a state-level theorem from above    *)
+(* ================================================================================================ *)
+(* ANY scanner state behind "key:" or behind "-" at the end of its line, whatever block collections [cols] are open
+   (ScanBlockProofs.at_below -- the states in which C03's scan of a block document stands at every nested line), whose next
+   line starts with a tab, any blanks and then content: the token iterator fails with site 41 *)
+Theorem C06_tab_indentation_below_parent_rejected : forall F (s : sc strin) ws c rest cols,
+  ScanBlockProofs.at_below s (10 :: 9 :: ws ++ c :: rest) cols -> blank_run SkipYes ws -> is_content_start c ->
+  (length ws + 3 <= F)%nat ->
+  exists m, next_token str_ops F s = Err 41 m.
+Proof. exact RejectBlockText.tab_at_below. Qed.
+Print Assumptions C06_tab_indentation_below_parent_rejected.
+
+(* EVERY text  key ":" NL TAB blanks content anything  -- the key any word of the block text sub-language (at most 1024
+   characters): scan error 41, rejected.  Generalises [C06_tab_indentation_text_rejected] (key "a") *)
+Theorem C06_tab_indentation_below_key_text_rejected : forall k ws c rest,
+  FlowText.key_ok k = true -> blank_run SkipYes ws -> is_content_start c ->
+  (exists m, snd (Drivers.scan_str (k ++ 58 :: 10 :: 9 :: ws ++ c :: rest)) = SError 41 m)
+  /\ snd (run_str (k ++ 58 :: 10 :: 9 :: ws ++ c :: rest)) <> PDone.
+Proof. exact RejectBlockText.tab_below_key_rejected. Qed.
+Print Assumptions C06_tab_indentation_below_key_text_rejected.
+
+(* EVERY text  "-" NL TAB blanks content anything *)
+Theorem C06_tab_indentation_below_entry_text_rejected : forall ws c rest,
+  blank_run SkipYes ws -> is_content_start c ->
+  (exists m, snd (Drivers.scan_str (45 :: 10 :: 9 :: ws ++ c :: rest)) = SError 41 m)
+  /\ snd (run_str (45 :: 10 :: 9 :: ws ++ c :: rest)) <> PDone.
+Proof. exact RejectBlockText.tab_below_dash_rejected. Qed.
+Print Assumptions C06_tab_indentation_below_entry_text_rejected.
+
+(* instances: "key:" NL TAB " j: v" NL and "-" NL TAB "x" NL, with the position the pipeline reports *)
+Example tab_below_key_instance :
+  FlowText.key_ok [107;101;121] = true /\ blank_run SkipYes [32] /\ is_content_start 106
+  /\ snd (run_str ([107;101;121] ++ 58 :: 10 :: 9 :: [32] ++ 106 :: [58;32;118;10]))
+     = PScanErr 41 {| m_index := 7; m_line := 2; m_col := 2 |}.
+Proof. split; [reflexivity|]. split; [repeat constructor|]. split; [cbv; repeat split; discriminate|]. vm_compute. reflexivity. Qed.
+
+Example tab_below_entry_instance :
+  snd (run_str (45 :: 10 :: 9 :: [] ++ 120 :: [10])) = PScanErr 41 {| m_index := 3; m_line := 2; m_col := 1 |}.
+Proof. vm_compute. reflexivity. Qed.
+
+(* the well-formed part SYMBOLIC: EVERY document [n] of the block text sub-language (Spec/BlockText.v: nested block sequences
+   and mappings of one-word scalars, any placement and indentation widths, nesting depth <= 255 -- the class of
+   [C03_block_text_tokens]), followed by one more line "key:" at column 0 whose nested line is indented by a TAB (then any
+   blanks, content, anything): scan error 41, rejected.  For a mapping root this is the document with one more pair, the tab
+   standing where the indentation of the pair's value belongs. *)
+Theorem C06_tab_indentation_after_block_document_rejected : forall n k ws c rest,
+  BlockText.bwf_root n = true -> (BlockText.bdepth n <= 255)%nat ->
+  FlowText.key_ok k = true -> blank_run SkipYes ws -> is_content_start c ->
+  (exists m, snd (Drivers.scan_str (BlockText.bdoc_text n ++ k ++ 58 :: 10 :: 9 :: ws ++ c :: rest)) = SError 41 m)
+  /\ snd (run_str (BlockText.bdoc_text n ++ k ++ 58 :: 10 :: 9 :: ws ++ c :: rest)) <> PDone.
+Proof. exact RejectBlockText.tab_below_key_after_document_rejected. Qed.
+Print Assumptions C06_tab_indentation_after_block_document_rejected.
+
+(* instance: "a:" NL "  - b" NL "  - c: d" NL   then   "k:" NL TAB "j: v" NL *)
+Example tab_after_block_document_instance :
+  let n := BlockText.BM None [([97], BlockText.BS (Some 1%nat) [BlockText.BW [98]; BlockText.BM None [([99], BlockText.BW [100])]])] in
+  BlockText.bwf_root n = true /\ (BlockText.bdepth n <= 255)%nat
+  /\ BlockText.bdoc_text n = [97;58;10; 32;32;45;32;98;10; 32;32;45;32;99;58;32;100;10]
+  /\ snd (run_str (BlockText.bdoc_text n)) = PDone
+  /\ snd (run_str (BlockText.bdoc_text n ++ [107] ++ 58 :: 10 :: 9 :: [] ++ 106 :: [58;32;118;10]))
+     = PScanErr 41 {| m_index := 22; m_line := 5; m_col := 1 |}.
+Proof. cbv zeta. split; [reflexivity|]. split; [cbn; repeat constructor|]. split; [reflexivity|]. split; vm_compute; reflexivity. Qed.
